@@ -8,8 +8,9 @@ case: {"hw": model string (optional), "gens": [{"name", "acl", "prog"}], ["probe
          | {"bi": [tok], "cond": None|bool, "body": prog}                  with self.block_if(*tok[, condition=c])
          | {"mb": [[tok]|tok], "body": prog}                               with self.multiblock(*blocks)
          | {"mbi": [[tok]|tok], "cond": None|bool, "body": prog}           with self.multiblock_if(*blocks[, condition=c])
-  tok   := {"s": str} | {"i": int} | {"n": 1}   (None)
-  yval  := {"s": str} | {"i": int} | {"n": 1} | {"t": [yval]} (tuple) | {"l": [yval]} (list)
+  tok   := {"s": str} | {"i": int} | {"bool": bool} | {"n": 1}   (None)
+  yval  := {"s": str} | {"i": int} | {"bool": bool} | {"n": 1} | {"t": [yval]} (tuple) | {"l": [yval]} (list)
+  cond  := None (left at the default) | any JSON value, passed as condition= as it is (0, "", [], 1, "x", true ...)
 
 out: {"gens": [ {"noacl": R, "acl": R} ], "old_new": R2}
   R   := {"ok": tree} | {"err": [kind, payload]}
@@ -40,6 +41,8 @@ def tok(t):
         return t["s"]
     if "i" in t:
         return t["i"]
+    if "bool" in t:
+        return bool(t["bool"])
     return None
 
 
@@ -48,6 +51,8 @@ def yval(v, top=True):
         return v["s"]
     if "i" in v:
         return v["i"]
+    if "bool" in v:
+        return bool(v["bool"])
     if "t" in v:
         return tuple(yval(x, False) for x in v["t"])
     if "l" in v:
